@@ -453,9 +453,9 @@ def prepare(prop_files, need_race=False, thorough=False):
     proof["discharged"] = proof["obligations"] if (ok and not hits and not proof["broken"]) else 0
     proof["ok"] = ok and not proof["broken"]
     if thorough and ok:
-        rc, so, se = sh("timeout 2400 coqchk -silent -o -Q . Arrai %s" % prop_file[:-2].replace("/", "."), timeout=2500, cwd=COQ)
+        rc, so, se = sh("timeout 2400 coqchk -silent -o -Q . Arrai Arrai.%s" % prop_file[:-2].replace("/", "."), timeout=2500, cwd=COQ)
         proof["coqchk"] = (so + se)[-1500:]
-        proof["checker_cmd"] += " ; coqchk -silent -o -Q . Arrai " + prop_file[:-2].replace("/", ".")
+        proof["checker_cmd"] += " ; coqchk -silent -o -Q . Arrai Arrai." + prop_file[:-2].replace("/", ".")
         if rc != 0:
             proof["broken"].append({"what": "coqchk failed", "log": (so + se)[-1500:]})
             proof["ok"] = False
